@@ -56,6 +56,12 @@ func (et *ExecuteTimeout) Handler(ctx context.Context, name string, args []inter
 	defer cancel()
 	c := make(chan returnValue, 1)
 	go func() {
+		// this goroutine is outside the recover of Service.Process
+		defer func() {
+			if e := recover(); e != nil {
+				c <- returnValue{nil, core.NewPanicError(e)}
+			}
+		}()
 		result, err := next(ctx, name, args)
 		c <- returnValue{result, err}
 	}()
